@@ -83,7 +83,10 @@ RegEntry(r, env, tab) ==
                    LET a == IF r.start.k = "none" THEN [ok |-> TRUE, n |-> 0] ELSE IxVal(r.start, env, EmptyFn)
                        b == IF r.stop.k = "none" THEN [ok |-> TRUE, n |-> Len(S.elems)] ELSE IxVal(r.stop, env, EmptyFn)
                        c == IF r.step.k = "none" THEN [ok |-> TRUE, n |-> 1] ELSE IxVal(r.step, env, EmptyFn)
-                   IN IF ~(a.ok /\ b.ok /\ c.ok) \/ c.n = 0 THEN BadReg
+                   \* a slice may not reach outside its source: besides every element being a qubit of the
+                   \* source, an ascending slice stops at or before the end (C14; this is also what makes
+                   \* `map a q[0:5]` on a 3-qubit register an error rather than a silently shorter alias)
+                   IN IF ~(a.ok /\ b.ok /\ c.ok) \/ c.n = 0 \/ (c.n > 0 /\ b.n > Len(S.elems)) THEN BadReg
                       ELSE LET js == RangeSeq(a.n, b.n, c.n) IN
                            IF \A p \in DOMAIN js : js[p] >= 0 /\ js[p] < Len(S.elems)
                            THEN [ok |-> TRUE, single |-> FALSE, fund |-> S.fund,
@@ -162,7 +165,8 @@ M(s, prog, env, tab, bind, erase, d) ==
               ELSE LET vals == [j \in DOMAIN s.args |-> ArgV(s.args[j], env, tab, bind)]
                        b2 == [p \in { m.params[j] : j \in DOMAIN m.params } |->
                                 vals[CHOOSE j \in DOMAIN m.params : m.params[j] = p]]
-                   IN M(m.body, prog, env, tab, b2, erase, d + 1)
+                   IN IF \E j \in DOMAIN vals : vals[j].k = "bad" THEN [k |-> "BAD", v |-> "argument of " \o s.v]
+                      ELSE M(m.body, prog, env, tab, b2, erase, d + 1)
          ELSE [k |-> "G", v |-> s.v, args |-> [j \in DOMAIN s.args |-> ArgV(s.args[j], env, tab, bind)]]
     [] s.k = "blk" ->
          LET node == [k |-> Kind(s), c |-> Splice(Kind(s), MSeq(s.body, prog, env, tab, bind, erase, d))] IN
@@ -276,26 +280,44 @@ NumFits(kind, nv) == CASE kind = "int" -> nv.i \/ (nv.k = "num" /\ nv.cv \notin 
                        [] kind = "float" -> TRUE
                        [] kind = "none" -> TRUE
                        [] OTHER -> FALSE
-ArgFits(kind, a, env) ==
+ArgFits(kind, a, env, tab) ==
   CASE a.k = "num" -> NumFits(kind, NV(a))
     [] a.k = "let" -> a.v \in DOMAIN env /\ NumFits(kind, env[a.v])
     [] a.k = "param" -> TRUE                       \* untyped macro parameter: checked when the macro is expanded
-    [] a.k \in {"qubit", "qalias"} -> kind \in {"qubit", "none"}
-    [] a.k = "reg" -> kind \in {"register", "none"}
+    [] a.k = "qubit" -> kind \in {"qubit", "none"}
+    \* a bare name denotes a qubit if it is a single-qubit alias and a register otherwise
+    [] a.k \in {"reg", "qalias"} -> a.v \in DOMAIN tab /\ tab[a.v].ok /\
+                                      (IF tab[a.v].single THEN kind \in {"qubit", "none"} ELSE kind \in {"register", "none"})
     [] OTHER -> FALSE
 \* a gate statement is well-typed: macro or native of the right arity whose arguments fit; with an
 \* anonymous gate set (no native table) every name and every argument list is acceptable
-GateTyped(prog, s, env) ==
+GateTyped(prog, s, env, tab) ==
   IF s.v \in MacroNames(prog) THEN Len(MacroOf(prog, s.v).params) = Len(s.args)
   ELSE IF prog.natives = <<>> THEN TRUE
   ELSE /\ s.v \in NativeNames(prog)
        /\ LET g == NativeOf(prog, s.v) IN
             /\ Len(g.kinds) = Len(s.args)
-            /\ \A j \in DOMAIN s.args : ArgFits(g.kinds[j], s.args[j], env)
+            /\ \A j \in DOMAIN s.args : ArgFits(g.kinds[j], s.args[j], env, tab)
 TypeOK(prog, ovr) ==
   LET env == Env(prog, ovr)
+      tab == RegTab(prog, env)
       ss == AllStmts(prog)
-  IN \A j \in DOMAIN ss : ss[j].k = "gate" => GateTyped(prog, ss[j], env)
+  IN \A j \in DOMAIN ss : ss[j].k = "gate" => GateTyped(prog, ss[j], env, tab)
+
+\* no identifier is declared twice (lets, registers and aliases share one namespace; macros another,
+\* shared with the native gates)
+NoDupNames(prog) ==
+  LET names == [j \in 1..(Len(prog.lets) + Len(prog.regs)) |->
+                  IF j <= Len(prog.lets) THEN prog.lets[j].v ELSE prog.regs[j - Len(prog.lets)].v]
+  IN /\ \A a, b \in DOMAIN names : a # b => names[a] # names[b]
+     /\ \A a, b \in DOMAIN prog.macros : a # b => prog.macros[a].v # prog.macros[b].v
+     /\ \A a \in DOMAIN prog.macros : prog.macros[a].v \notin NativeNames(prog)
+\* full static validity of a (program, override) pair
+ValidAll(prog, ovr) ==
+  /\ NoDupNames(prog)
+  /\ LET t == RegTab(prog, Env(prog, ovr)) IN \A r \in DOMAIN t : t[r].ok
+  /\ ~HasBad(Meaning(prog, ovr))
+  /\ TypeOK(prog, ovr)
 
 \* ---------------------------------------------------------------- declarations (order-insensitive)
 SeqToSet(s) == { s[j] : j \in DOMAIN s }
